@@ -34,13 +34,13 @@ theorem computeFingerprintFull_table_eq (fps : List Int) : computeFingerprintFul
 /-- the translated starting value of the container branch is the accumulator the model reads off the behaviour, for every
     tabulated (kind, length) -/
 theorem hashSequence_seed_eq :
-    Gen.fpSeeds.all (fun e => decide (hashSequenceSeedT e.1.1 e.1.2 = e.2)) = true := by decide +kernel
+    Gen.fpSeeds.all (fun e => decide (hashSequenceSeedT FP.P e.1.1 e.1.2 = e.2)) = true := by decide +kernel
 
 /-- container-valued elements are hashed with the same rolling hash, from the starting value of their kind and length: the
     translated branch is the model's `Elem.hash` of a container, for every kind and all items, wherever the translated starting
     value is the model's (`hashSequence_seed_eq`: on the whole table) -/
 theorem hashSequence_eq (kind : Nat) (es : List FP.Elem)
-    (hseed : hashSequenceSeedT kind es.length = FP.seedOf kind es.length) :
+    (hseed : hashSequenceSeedT FP.P kind es.length = FP.seedOf kind es.length) :
     hashSequenceT FP.P FP.B kind (es.map FP.Elem.hash) = (FP.Elem.seq kind es).hash := by
   rw [FP.Elem.hash_seq]
   unfold hashSequenceT FP.ev
